@@ -3,6 +3,7 @@ mod c01;
 mod c02;
 mod c06;
 mod c07;
+mod c16;
 mod fw;
 mod indep;
 mod scn;
@@ -23,6 +24,7 @@ fn main() {
         "C02" => c02::check(tier),
         "C06" => c06::check(tier),
         "C07" => c07::check(tier),
+        "C16" => c16::check(tier),
         _ => {
             eprintln!("unknown check {id}");
             2
